@@ -1,3 +1,5 @@
+\* Default instance of MC_Wal (manual runs: bin/tlc -deadlock -config spec/MC_Wal.cfg spec/MC_Wal.tla).
+\* checks/C16.py generates its instances (q, a, n, d, c, k, fc, fk and the must-fail xz, xt, xc, xk) from the same constants.
 SPECIFICATION Spec
 CONSTANTS
   SectorWords = 64
@@ -10,6 +12,10 @@ CONSTANTS
   WithSnap = TRUE
   WithRewrite = TRUE
   WithAppend = FALSE
+  WithCutCrash = FALSE
+  StaleTmpAsBuilt = TRUE
+  WithCorrupt = FALSE
+  TypeInCrc = FALSE
   AppSizes <- AppSizesQ
   ZeroToEndOn = TRUE
   TornShift = 1
